@@ -4,6 +4,7 @@
 //! Requests (one JSON object per line on stdin), responses one line each on stdout:
 //!   {"op":"new","rw":"r1","config":<json value>}            -> {"ok":{"csi":[..],"dump":"Config {..}"}}
 //!   {"op":"new","rw":"r1","config_text":"<json text>"}      (text that may fail to deserialise)
+//!   {"op":"set_logger","level":"DEBUG"}                      -> installs the sink logger, sets the global maximum level
 //!   {"op":"rewrite","rw":"r1","code":..,"file":..,"reader":{..}} -> {"ok":{content,metrics,literalsResult,raw}} | {"err":..} | {"panic":{..}}
 //!   {"op":"rnd","n":6,"count":1000}                         -> {"ok":{"strings":[..]}}
 //!   {"op":"file_name","file":".."}                          -> {"ok":{"name":..}}
@@ -221,6 +222,20 @@ fn handle(req: &Value, rewriters: &mut HashMap<String, rw::Config>) -> Value {
             let n_prologue = config.file_prefix_code.len();
             rewriters.insert(id, config);
             json!({"ok": {"csi": csi, "dump": dump, "prefix": prefix, "prologue_stmts": n_prologue}})
+        }
+        // what Rewriter.setLogger(logger, level) does to the process: one logger, one global maximum level
+        "set_logger" => {
+            let level = match req.get("level").and_then(|v| v.as_str()).unwrap_or("ERROR").to_uppercase().as_str() {
+                "OFF" => log::LevelFilter::Off,
+                "ERROR" => log::LevelFilter::Error,
+                "WARN" => log::LevelFilter::Warn,
+                "INFO" => log::LevelFilter::Info,
+                "TRACE" => log::LevelFilter::Trace,
+                _ => log::LevelFilter::Debug,
+            };
+            let _ = log::set_boxed_logger(Box::new(SinkLogger));
+            log::set_max_level(level);
+            json!({"ok": {"level": format!("{level:?}")}})
         }
         "rewrite" => {
             let id = req.get("rw").and_then(|v| v.as_str()).unwrap_or("r0");
